@@ -262,7 +262,7 @@ def h_parse_unparse(X, n):
 
     api = X.choose("api", ["str", "bytes"])
     scheme = X.choose("scheme", ["http", "https"])
-    cls, host, valid = _host(X, ["name", "idn-a", "ipv4", "ipv6"] if TIER["thorough"] else ["menu"])
+    cls, host, valid = _host(X, ["menu"])
     port = X.choose("port", [None, "80", "8080", "65535"])
     lead = X.choose("lead", ["", "/", "?", "/p?", "/p?k=v&x="])
     k = X.choose("len", n + 1)
@@ -428,8 +428,8 @@ def _build_regex_queries():
 
     def rp_wide(w):
         v = w["s"].encode("latin-1", "replace")
-        ok = bool(real.match(v)) and check.is_valid_host(v)
-        return ok, f"_label_valid.match({v!r}) succeeds and is_valid_host({v!r}) is True: not 1-63 characters of [A-Za-z0-9_-]"
+        ok = bool(real.match(v))
+        return ok, f"_label_valid.match({v!r}) succeeds (is_valid_host({v!r}) = {check.is_valid_host(v)}): not 1-63 characters of [A-Za-z0-9_-]"
 
     nonl = smt.no_chars("\n")
     qs.append(smt.lang_subset("label ⊆ (LDH|_){1,63} (no newline in input)", rl, z3.Loop(ldh_us, 1, 63), key="C33/regex/label-too-wide", replay=rp_wide, within=nonl))
@@ -466,7 +466,10 @@ def _build_regex_queries():
     # everything the regex accepts splits as (no-colon host | bracketed) [":" 1*DIGIT] with ASCII digits
     anych = smt.any_string()
     host_shape = z3.Union(z3.Plus(_class_except(":")), z3.Concat(z3.Re(z3.StringVal("[")), z3.Plus(_class_except("")), z3.Re(z3.StringVal("]"))))
-    shape = z3.Concat(host_shape, z3.Option(z3.Concat(z3.Re(z3.StringVal(":")), z3.Plus(digit))))
+    nd_ranges = smt._unicode_decimal_ranges()
+    nd = smt._re_of_ranges(nd_ranges)  # what \d means in a str pattern without re.ASCII
+    nd_nonascii = smt._re_of_ranges([r for r in nd_ranges if r != (48, 57)])
+    shape = z3.Concat(host_shape, z3.Option(z3.Concat(z3.Re(z3.StringVal(":")), z3.Plus(nd))))
 
     def rp_auth(w):
         v = w["s"]
@@ -477,9 +480,12 @@ def _build_regex_queries():
         except ValueError:
             ok, m = False, None
         port = m.group("port") if m else None
-        return ok, f"_authority_re matches {v!r} (port group {port!r}): not host [':' 1*DIGIT] over ASCII digits"
+        return ok, f"_authority_re matches {v!r} (port group {port!r}): not (colon-free host | [bracketed]) [':' 1*DIGIT] with ASCII digits"
 
-    qs.append(smt.lang_subset("_authority_re ⊆ host[:1*DIGIT] (no newline in input)", ra, shape, key="C33/regex/authority-port-non-ascii-digit", replay=rp_auth, within=nonl))
+    qs.append(smt.lang_subset("_authority_re ⊆ (colon-free host | [..]) [: digits] (no newline in input)", ra, shape, key="C33/regex/authority-host-shape", replay=rp_auth, within=nonl))
+    bad_port = z3.Concat(anych, z3.Re(z3.StringVal(":")), z3.Star(nd), nd_nonascii, z3.Star(nd))
+    qs.append(smt.Query("no match has a non-ASCII digit in the port", [z3.InRe(z3.String("s"), z3.Intersect(ra, nonl, bad_port))], key="C33/regex/authority-port-non-ascii-digit",
+                        witness_vars=[z3.String("s")], replay=rp_auth))
     # a port followed by a newline is not a port
     tail_nl = z3.Concat(anych, z3.Re(z3.StringVal(":")), z3.Plus(digit), z3.Re(z3.StringVal("\n")))
 
@@ -525,7 +531,7 @@ def obligations(tier):
              bounds=f"request kinds {KINDS} x initial scheme/port x edit sequences (host, port, host+port, port+host, url, url+port, host+url) over hosts {HOSTS2}, ports {PORTS2}, urls {URLS2}",
              encoded=ENCODED[:5] + ENCODED[7:9], must_reach=["end", "host-header", "authority"], parallel_depth=3),
         Symx("parse-unparse", lambda X: h_parse_unparse(X, n_pu),
-             bounds=f"url.parse(str|bytes) x scheme x hosts (names, A-labels, IPv4, IPv6) x 4 ports x lead x strings of <= {n_pu} characters over {ALPHABET}",
+             bounds=f"url.parse(str|bytes) x scheme x hosts {HOST_MENU} x 4 ports x 5 leads x strings of <= {n_pu} characters over {ALPHABET}",
              encoded=ENCODED[5:9] + ENCODED[10:11], must_reach=["parsed", "rejected"], parallel_depth=3),
         Symx("parse-authority", h_parse_authority,
              bounds=f"host texts (menu {HOST_MENU} + U-labels; thorough: all host classes) x port text {AUTH_PORTS} x str/bytes, check=True and check=False",
